@@ -1768,6 +1768,19 @@ pub fn generate(pop: &str, seed: u64, run: u64) -> Option<Trace> {
                 }
                 threads.push(prog);
             }
+            // in a third of the runs a stepped iterator holds shard locks while maintenance
+            // has to admit / evict (it must wait for the lock, not pick somebody else)
+            if rng.chance(1, 3) {
+                let mut prog = vec![OpRec::plain(Op::IterBegin)];
+                for _ in 0..rng.range(1, allk as u64) {
+                    prog.push(OpRec::plain(Op::IterNext));
+                }
+                prog.push(OpRec::plain(Op::IterEnd));
+                threads.push(prog);
+                if rng.chance(1, 2) {
+                    cfg.hasher = *rng.pick(&[HashMode::Fixed, HashMode::Collide1, HashMode::Collide2]);
+                }
+            }
         }
         "thr-iter-mixed" => {
             // stepped iterators beside threads that insert new keys, invalidate, expire and
@@ -1920,6 +1933,11 @@ pub fn generate(pop: &str, seed: u64, run: u64) -> Option<Trace> {
         if r2.chance(1, 3) {
             cfg.shards = Some(*r2.pick(&[2usize, 8, 16]));
         }
+    }
+    // burst: initial_capacity must have no effect on the back-pressure (a separate stream)
+    if pop == "burst" {
+        let mut r3 = Prng::new(mix(sub, 78, 0));
+        cfg.init_cap = *r3.pick(&[None, Some(0usize), Some(7), Some(300), Some(2000)]);
     }
     let total: usize = threads.iter().map(|t| t.len()).sum();
     let cfg_weigher = cfg.weigher;
